@@ -98,7 +98,7 @@ theorem skeletons_agree_connector :
        ("-", "self.stop_pending_connections"), ("-", "c.select"), ("if", "KCM"), ("if", "c.send_record"),
        ("-", "_manager.connector_connection_made")] ∧
     Skel.skeleton "Connector.consider" = [("if", "_eventual_queue.eventually"), ("else", "_eventual_queue.eventually")] := by
-  decide
+  decide +kernel
 
 theorem skeletons_agree_manager :
     Skel.skeleton "Manager.abandon_connection" = [("if", "_timer.cancel"), ("-", "_connection.disconnect")] ∧
@@ -117,7 +117,7 @@ theorem skeletons_agree_manager :
        ("-", "_inbound.use_connection"), ("-", "_outbound.use_connection"), ("if", "_main_channel.fire")] ∧
     Skel.skeleton "Manager._stop_using_connection" =
       [("if", "_timer.cancel"), ("-", "_inbound.stop_using_connection"), ("-", "_outbound.stop_using_connection")] := by
-  decide
+  decide +kernel
 
 theorem skeletons_agree_dilator :
     Skel.skeleton "Dilator.stop" =
@@ -133,7 +133,7 @@ theorem skeletons_agree_dilator :
     Skel.skeleton "DilatedConnectionProtocol.connectionLost" = [("-", "_disconnected.fire")] ∧
     Skel.skeleton "DilatedConnectionProtocol.disconnect" = [("-", "transport.loseConnection")] ∧
     Skel.skeleton "DilatedConnectionProtocol.set_manager" = [("-", "self.when_disconnected"), ("-", "?.addCallback")] := by
-  decide
+  decide +kernel
 
 /-! ## 3. stop from every state -/
 
